@@ -1329,6 +1329,7 @@ class BaseImage(metaclass=ImageMeta):
         prev_seek_pos = self._seek_position
         duration = self._frame_duration
         image_it = ImageIterator(self, repeat, "", cached)
+        image_it.close()  # Closes the image it opened; *img* is used instead
         image_it._animator = image_it._animate(img, alpha, fmt, style_args)
         cursor_up = CURSOR_UP % (lines - 1)
         cursor_down = CURSOR_DOWN % lines
@@ -1709,7 +1710,13 @@ class BaseImage(metaclass=ImageMeta):
                         "an animation"
                     )
 
-            return renderer(self._get_image(), *args, **kwargs)
+            img = self._get_image()
+            try:
+                return renderer(img, *args, **kwargs)
+            except (KeyboardInterrupt, Exception):
+                # The image was not (or might not have been) closed by *renderer*
+                self._close_image(img)
+                raise
 
         finally:
             if isinstance(_size, Size):
@@ -2150,7 +2157,19 @@ class ImageIterator:
         """Returns a generator that yields rendered and formatted frames of the
         underlying image.
         """
+        # Not set by the generator itself, so that the image is also closed if the
+        # iterator is closed (or garbage-collected) before yielding the first frame.
         self._img = img  # For cleanup
+        return self._generate_frames(img, alpha, fmt, style_args)
+
+    def _generate_frames(
+        self,
+        img: PIL.Image.Image,
+        alpha: Union[None, float, str],
+        fmt: Tuple[Union[None, str, int]],
+        style_args: Dict[str, Any],
+    ) -> Generator[str, int, None]:
+        """The generator returned by :py:meth:`_animate`."""
         image = self._image
         cached = self._cached
         self._loop_no = repeat = self._repeat
